@@ -551,7 +551,45 @@ def run(ctx):
             if cp not in only_prims and cp.startswith('minicbor::') and cs and cs <= only_prims:
                 only_prims.add(cp)
                 grew = True
-    f_panic(ctx, prog, set(k for k in reach if prog.get(k)['path'] not in only_prims), 'decode')
+    # skip() and private helpers only it calls: the bookkeeping arithmetic (`nrounds - 1`, `*n -= 1`, ..) is safe because of the
+    # loop's state invariant, which is exactly what C06's step interpretation carries: every state shape x every head class is
+    # interpreted with the stack modelled, and a step that can panic (or goes through a call the analysis cannot follow) is reported
+    only_skip = {DEC + 'skip'}
+    grew = True
+    while grew:
+        grew = False
+        for cp, cs in callers.items():
+            if cp not in only_skip and cp.startswith('minicbor::') and cs and cs <= only_skip:
+                only_skip.add(cp)
+                grew = True
+    f_panic(ctx, prog, set(k for k in reach if prog.get(k)['path'] not in only_prims and prog.get(k)['path'] not in only_skip), 'decode')
+    if True:
+        from . import c06_sim
+
+        class SkipPanics:
+            def __init__(self):
+                self.analysed = {}
+                self.n = 0
+
+            def ok(self, rule, inst, nontrivial=True):
+                self.n += 1
+
+            def violation(self, rule, inst, msg, where=None, **kw):
+                if '|diverge' in inst or '|opaque' in inst or 'panic' in msg:
+                    ctx.violation('F-PANIC.skip', inst, msg, where)
+
+            def fail_closed(self, rule, msg):
+                ctx.fail_closed('F-PANIC.skip', msg)
+
+            def count(self, *a):
+                pass
+        sp = SkipPanics()
+        try:
+            rows = c06_sim.sim(sp, prog, 'skip', bool(prog.feature('alloc') or prog.feature('std')))
+            ctx.ok('F-PANIC.skip', '%d step rows of skip() interpreted without a possible panic' % rows)
+        except Abort as e:
+            ctx.fail_closed('F-PANIC.skip', 'skip cannot be interpreted: %s' % e)
+    ctx.rules_run.append('F-PANIC.skip: skip() and helpers only it calls are interpreted from every state shape of its bookkeeping (C06 T-SKIP.sim machinery): no step can panic')
     ctx.rules_run.append('T-PRIM: input primitives: Ok <=> bounds check succeeded, position advanced by exactly the bytes returned; error = EndOfInput with position unchanged')
     t_prim(ctx, prog)
     ctx.rules_run.append('F-UNSAFE: unsafe blocks = reviewed set; ArrayVec typestate (write before len++, read under len == N then forget, drop on error exits)')
